@@ -111,6 +111,8 @@ struct Pass {
     /// when the sink failure fires, refuse the next allocation too (persistent?)
     then_refuse_alloc: Option<bool>,
     clock: ClockMode,
+    /// the sink formats other values of the library from inside its own write calls
+    reentrant_sink: bool,
 }
 
 impl Pass {
@@ -120,9 +122,12 @@ impl Pass {
         alloc_refuse: None,
         then_refuse_alloc: None,
         clock: ClockMode::Normal,
+        reentrant_sink: false,
     };
     fn kind(&self) -> &'static str {
-        if self.sink_fail_at.is_some() && self.then_refuse_alloc.is_some() {
+        if self.reentrant_sink {
+            "reentrant_sink"
+        } else if self.sink_fail_at.is_some() && self.then_refuse_alloc.is_some() {
             "sink_write_fail_then_alloc_refused_in_error_path"
         } else if self.sink_fail_at.is_some() {
             "sink_write_fail"
@@ -160,6 +165,7 @@ impl Pass {
             "alloc_refuse_request": self.alloc_refuse.map(|x| x.0),
             "alloc_refuse_persistent": self.alloc_refuse.map(|x| x.1),
             "then_refuse_next_alloc_persistent": self.then_refuse_alloc,
+            "reentrant_sink": self.reentrant_sink,
             "clock": match self.clock {
                 ClockMode::Normal => json!("normal"),
                 ClockMode::Extreme(i) => json!({"extreme": i, "what": EXTREME_CLOCKS[i % EXTREME_CLOCKS.len()].3}),
@@ -174,6 +180,7 @@ impl Pass {
             sink_capacity: u("sink_capacity_bytes").map(|x| x as usize),
             alloc_refuse: u("alloc_refuse_request").map(|n| (n, v["alloc_refuse_persistent"].as_bool().unwrap_or(false))),
             then_refuse_alloc: v["then_refuse_next_alloc_persistent"].as_bool(),
+            reentrant_sink: v["reentrant_sink"].as_bool().unwrap_or(false),
             clock: if v["clock"] == json!("ticking") {
                 ClockMode::Ticking
             } else if let Some(i) = v["clock"]["extreme"].as_u64() {
@@ -201,6 +208,7 @@ struct PassResult {
 fn run_pass(call: &Call, funcs: &Tables, vals: Option<&calls::Vals>, pass: &Pass) -> PassResult {
     set_clock_mode(pass.clock);
     let mut sink = FaultySink::new(pass.sink_fail_at, pass.sink_capacity, pass.then_refuse_alloc);
+    sink.reentrant = pass.reentrant_sink;
     let r = std::panic::catch_unwind(std::panic::AssertUnwindSafe(|| {
         alloc::arm(pass.alloc_refuse.map(|x| x.0), pass.alloc_refuse.map(|x| x.1).unwrap_or(false));
         let o = calls::execute(call, funcs, vals, &mut sink);
@@ -250,6 +258,10 @@ fn enumerate_passes(w: usize, bytes: usize, a: u64, c: u64, rng: &mut Rng) -> Ve
         v.push(Pass { sink_fail_at: Some(i), ..Pass::CONTROL });
     }
     if w > 0 {
+        // a sink that re-enters the library while it is being written to; alone, and
+        // together with a failure at the last write
+        v.push(Pass { reentrant_sink: true, ..Pass::CONTROL });
+        v.push(Pass { reentrant_sink: true, sink_fail_at: Some(w - 1), ..Pass::CONTROL });
         let mut caps = vec![0usize, 1];
         if bytes > 0 {
             caps.push(bytes - 1);
@@ -284,7 +296,8 @@ fn enumerate_passes(w: usize, bytes: usize, a: u64, c: u64, rng: &mut Rng) -> Ve
 // worker
 // ---------------------------------------------------------------------------
 
-const FAULT_KINDS: [&str; 7] = [
+const FAULT_KINDS: [&str; 8] = [
+    "reentrant_sink",
     "sink_write_fail",
     "sink_capacity",
     "alloc_refused_once",
@@ -436,7 +449,7 @@ fn worker(build: &str, seed: u64, n_calls: u64, index: u64, of: u64, trace: bool
                 } else {
                     let kind = pass.kind();
                     *st.configured.entry(kind).or_default() += 1;
-                    let fired = r.sink_fired || r.refused > 0 || matches!(pass.clock, ClockMode::Extreme(_) | ClockMode::Ticking) && r.clock_reads > 0;
+                    let fired = pass.reentrant_sink || r.sink_fired || r.refused > 0 || matches!(pass.clock, ClockMode::Extreme(_) | ClockMode::Ticking) && r.clock_reads > 0;
                     if fired {
                         *st.fired.entry(kind).or_default() += 1;
                         let mut h = simcore::Fnv::new();
@@ -699,6 +712,7 @@ fn minimise(build: &str, call: Call, pass: Pass, class: &str, scratch: &std::pat
     for cand in [
         Pass::CONTROL,
         Pass { then_refuse_alloc: None, ..pass },
+        Pass { reentrant_sink: false, ..pass },
         Pass { alloc_refuse: pass.alloc_refuse.map(|x| (x.0, false)), ..pass },
         Pass { sink_fail_at: pass.sink_fail_at.map(|_| 0), ..pass },
     ] {
@@ -724,16 +738,20 @@ fn minimise(build: &str, call: Call, pass: Pass, class: &str, scratch: &std::pat
             let p = shrink_str(&pic, &mut |s| fails(&Call::Chain { producer: producer.clone(), args: args.clone(), pic: s.to_string(), display }, &pass));
             call = Call::Chain { producer, args, pic: p, display };
         }
-        Call::Format { ty, raw, pic, display } => {
-            let p = shrink_str(&pic, &mut |s| fails(&Call::Format { ty, raw, pic: s.to_string(), display }, &pass));
+        Call::Format { ty, raw, pic, display, flags } => {
+            let p = shrink_str(&pic, &mut |s| fails(&Call::Format { ty, raw, pic: s.to_string(), display, flags }, &pass));
             let mut r = raw;
             for cand in [0i64, 1, ty.lo(), ty.hi()] {
-                if cand != r && fails(&Call::Format { ty, raw: cand, pic: p.clone(), display }, &pass) {
+                if cand != r && fails(&Call::Format { ty, raw: cand, pic: p.clone(), display, flags }, &pass) {
                     r = cand;
                     break;
                 }
             }
-            call = Call::Format { ty, raw: r, pic: p, display };
+            let mut fl = flags;
+            if fl != 0 && fails(&Call::Format { ty, raw: r, pic: p.clone(), display, flags: 0 }, &pass) {
+                fl = 0;
+            }
+            call = Call::Format { ty, raw: r, pic: p, display, flags: fl };
         }
         _ => {}
     }
